@@ -128,6 +128,50 @@ def facts_at(fn, g, flow, sym, bi, cache):
     return fx
 
 
+def rad3(p, res, prefixes, rule="RAD-3"):
+    """limb counts are comparable only between objects of one radix: `min` / `max` of the limb counts of two different objects (used as a loop bound or the size of a temporary) is
+    taken only where a dominating assertion / decision makes their radices equal; otherwise limbs of 2^b1 are counted as limbs of 2^b2"""
+    n = 0
+
+    def size_params(pl):
+        out = set()
+        for a in _deep_atoms(pl):
+            if a[0] == "f" and a[1] == "size":
+                for mono, c in a[2][0]:
+                    for x in mono:
+                        if x[0] == "p":
+                            out.add(x[1])
+        return out
+    for f in sorted(p.lib_fns(), key=lambda x: x.uid):
+        if f.kind == "Closure" or not f.blocks or not f.uid.startswith(prefixes) or "::test_suite::" in f.uid or f.name.endswith(("tmp_bytes", "tmp_bytes_default")):
+            continue
+        sym = g = None
+        for bi, t in f.calls():
+            if (f.callee_def(t) or {}).get("n") not in ("min", "max") or len(t["a"]) != 2:
+                continue
+            if sym is None:
+                sym = Sym(f, Flow(f))
+                g = CFG(f)
+            x, y = sym.operand(t["a"][0]), sym.operand(t["a"][1])
+            px, py = size_params(x), size_params(y)
+            if not (px and py and px != py and len(px) == 1 and len(py) == 1):
+                continue
+            # both objects carry a radix (a `base2k()` accessor is called on them somewhere in the crate: checked through the call in this function or asserted facts)
+            n += 1
+            fx = facts_at(f, g, Flow(f, transparent=T), sym, bi, {})
+            bx = Poly.atom(("f", "base2k", (Poly.atom(("p", list(px)[0], ())).key(),)))
+            by = Poly.atom(("f", "base2k", (Poly.atom(("p", list(py)[0], ())).key(),)))
+            pn = f.param_names()
+            if fx.cls(bx) == fx.cls(by):
+                res.ok(rule, {"fn": f.pretty, "expr": "%s(%r, %r)" % ((f.callee_def(t) or {}).get("n"), x, y)})
+            else:
+                res.bad(rule, f.pretty, "%s(size(%s),size(%s))" % ((f.callee_def(t) or {}).get("n"), pn.get(list(px)[0]), pn.get(list(py)[0])),
+                        "%s combines the limb counts of `%s` and `%s` (%s(%r, %r)) where nothing makes their radices equal: limbs of one radix are counted as limbs of the other (a "
+                        "bound that is right for equal radices cuts or over-reads when they differ)" % (f.pretty, pn.get(list(px)[0]), pn.get(list(py)[0]), (f.callee_def(t) or {}).get("n"), x, y),
+                        site=f.where(t["l"]))
+    return n
+
+
 def dominating_cmps(fn, g, flow, sym, bi):
     """comparisons whose truth is known at block bi: two-way switches on a comparison one of whose arms dominates bi (assertions and decisions alike) -> [(op, x, y)] with the
     truth folded into op"""
